@@ -1032,6 +1032,8 @@ class KafkaClient(object):
         Returns the broker for a given consumer group or
         Raises CoordinatorNotAvailable
         """
+        # The cache is keyed by the coerced (str) group name.
+        consumer_group = _coerce_consumer_group(consumer_group)
         if self._group_to_coordinator.get(consumer_group) is None:
             yield self.load_coordinator_for_group(consumer_group)
 
